@@ -1397,6 +1397,12 @@ private:
     if (!log.is_open())
       return; // No log file yet
 
+    // End offset of the last complete record. Whatever follows it (a record torn
+    // by a crash, or an unreadable length) is cut off once replay is done:
+    // openLogFile() appends, and records appended behind a torn one would be
+    // swallowed by its length prefix on the next load.
+    std::uintmax_t goodOffset = 0;
+
     while (log.peek() != EOF)
     {
       uint32_t totalLen = 0;
@@ -1411,6 +1417,7 @@ private:
       {
         break; // Incomplete entry
       }
+      goodOffset += sizeof(totalLen) + totalLen;
 
       if (!validateLogEntry(buffer, totalLen))
       {
@@ -1546,6 +1553,18 @@ private:
       {
         _kv.erase(key);
         _expiry.erase(key);
+      }
+    }
+
+    log.close();
+    std::error_code ec;
+    const auto logSize = std::filesystem::file_size(_logPath, ec);
+    if (!ec && logSize > goodOffset)
+    {
+      std::filesystem::resize_file(_logPath, goodOffset, ec);
+      if (ec)
+      {
+        throw KVStoreException("Failed to truncate torn log tail: " + ec.message());
       }
     }
   }
